@@ -218,7 +218,9 @@ theorem C01_stack_ann_tuple_witness :
 
 open GEVerif.StackLemmas in
 /-- The exceptions of the stack machine.  When the loop gives up it is with `GeneticEngineError`
-("Stack genome not enough", `.library`) or because the model's fuel ran out; anything else needs a
+("Stack genome not enough", `.library`) -- at the failure limit, or when the operation budget `fuel` is used up (the
+repaired loop's `failures_limit * len(dna)`; before the repair a genotype that never assembled a program, a constant one
+for instance, was read round and round forever) --; anything else needs a
 degenerate symbol list: `KeyError` — an abstract class without registered productions (open
 finding), `AssertionError` — `choice([])` on an abstract class with an empty production list or
 an empty `Union`, `IndexError` — no symbols at all.  (`ValueError`, `randint` on an empty range,
@@ -227,22 +229,23 @@ cannot happen.)  The model reads an empty genotype as zeros; the real `ListWrapp
 theorem C01_mapStack_err_library_or_foreign (g : Grammar) (order : List Ty) (limit fuel : Nat)
     (dna : List Int) (e : Err) (s' : SynSt)
     (h : Stack.mapStack g order limit fuel dna = .err e s') :
-    e = .library ∨ e = .foreign "fuel" ∨
+    e = .library ∨
     (orderProductive g order = false ∧
       (e = .foreign "KeyError" ∨ e = .foreign "AssertionError" ∨ e = .foreign "IndexError")) :=
   mapStack_err g order limit fuel dna e s' h
 
 open GEVerif.StackLemmas in
 /-- … and for a non-empty symbol list whose abstract classes have productions and whose unions
-have alternatives (`orderProductive`, decidable): `GeneticEngineError` or out of fuel, nothing else -/
+have alternatives (`orderProductive`, decidable): `GeneticEngineError`, nothing else -- for EVERY operation budget
+`fuel` (the repaired loop performs at most `failures_limit * len(dna)` operations: it always terminates, and when the
+budget is used up it fails with the library's own error like it does at the failure limit) -/
 theorem C01_mapStack_err_library (g : Grammar) (order : List Ty)
     (hprod : orderProductive g order = true) (limit fuel : Nat)
     (dna : List Int) (e : Err) (s' : SynSt)
     (h : Stack.mapStack g order limit fuel dna = .err e s') :
-    e = .library ∨ e = .foreign "fuel" := by
-  rcases mapStack_err g order limit fuel dna e s' h with h | h | ⟨h, _⟩
-  · exact Or.inl h
-  · exact Or.inr h
+    e = .library := by
+  rcases mapStack_err g order limit fuel dna e s' h with h | ⟨h, _⟩
+  · exact h
   · rw [hprod] at h; cases h
 
 /-! #### Non-vacuity (stack machine) -/
@@ -284,11 +287,13 @@ example : ∃ s', Stack.mapStack stackExG stackExOrder 100 50 stackExDna = .ok s
       decide +kernel)
   exact ⟨s', h, C01_mapStack_wt_stripSpec stackExSpec (by decide) (by decide +kernel) _ (by decide)
     (by decide) _ _ _ _ _ h⟩
--- the loop gives up with `GeneticEngineError` after `limit` failures; out of fuel; `KeyError` on
+-- the loop gives up with `GeneticEngineError` after `limit` failures and when its operation budget is used up; `KeyError` on
 -- an abstract class without productions in the symbol list
 example : errIs (Stack.mapStack stackExG stackExOrder 3 50 [0, 0]) .library = true := by decide +kernel
-example : errIs (Stack.mapStack stackExG stackExOrder 100 2 [0, 300000, 7]) (.foreign "fuel") = true := by
+example : errIs (Stack.mapStack stackExG stackExOrder 100 2 [0, 300000, 7]) .library = true := by
   decide +kernel
+-- a constant genotype pushes ints for ever: the operation budget (failures_limit * len(dna) = 8 here) ends the mapping
+example : errIs (Stack.mapStack stackExG stackExOrder 4 (4 * 2) [0, 0]) .library = true := by decide +kernel
 example : errIs (Stack.mapStack
     (analyse { classes := [{ name := "A", abstract := true, parent := none, fields := [] }],
                start := 0, considered := [0] }) [.cls 0] 100 5 [0, 0]) (.foreign "KeyError") = true := by
